@@ -2,6 +2,7 @@
    Statements only; proofs in Text/Qasm2.v. *)
 From Coq Require Import ZArith List Bool String.
 From Verif Require Import BGate PyVal Ast State Unroll Qasm2.
+From Verif Require Import ModuleSpec ModuleProofs.
 Import ListNotations.
 
 (* top-level statements outside the OpenQASM 2 subset are rejected with ValidationError *)
@@ -52,3 +53,11 @@ Example C19_example :
   map render (format_declarations [LOtherLine "OPENQASM 2.0;"; LQubit "2" "qubit_1"; LBit "3" "mbit"; LOtherLine "h qubit_1[0];"])
   = ["OPENQASM 2.0;"; "qreg qubit_1[2];"; "creg mbit[3];"; "h qubit_1[0];"]%string.
 Proof. reflexivity. Qed.
+
+(* in a call history: to_qasm3() of a version-2 module adds a NEW version-3 module holding the module's current
+   program (the transformations applied so far included) with the include rewritten; nothing else changes *)
+Theorem C19_to_qasm3_is_a_new_module w i m : nth_error w i = Some m -> sp_q2 m = true ->
+  step w i OToQasm3 = (w ++ [mkMS (to_qasm3 (sp_prog m)) false false], OutNew).
+Proof. exact (to_qasm3_is_a_new_module w i m). Qed.
+Print Assumptions C19_to_qasm3_is_a_new_module.
+
